@@ -36,6 +36,10 @@ namespace Clipper2Lib { namespace verif {
   typedef void (*IntersectFn)(const long long* v);
   inline thread_local long long scanbeam_top_y = 0;
   inline thread_local IntersectFn intersect_fn = nullptr;
+  // one call per DoSplitOp (a self-intersecting output ring is split while the solution is built):
+  // tree = 1 when executing into a PolyTree, ring = index of the ring being split
+  typedef void (*SplitFn)(int tree, long long ring);
+  inline thread_local SplitFn split_fn = nullptr;
 }}
 #define CLIPPER2_VERIF_YIELD(site) ::Clipper2Lib::verif::Yield(site)
 #else
